@@ -470,6 +470,16 @@ struct Inner {
     current: usize,
     /// Latch the driver waits for.
     driver_wait: Option<u64>,
+    /// Emulated futex wait of the driver (the simulated program's main thread).
+    driver_futex: Option<Arc<AtomicU8>>,
+    driver_futex_timeout: bool,
+    /// The driver called `yield_now` (it spins on something a worker has to do) and waits for the token.
+    driver_yielded: bool,
+    driver_looks: u64,
+    /// Threads of the process when the simulation was created, and workers spawned since: any
+    /// thread beyond that is one the simulator does not know - it may still wake a waiter.
+    threads_at_start: usize,
+    workers_spawned: usize,
     finished_jobs: std::collections::BTreeSet<u64>,
     next_job_id: u64,
     policy: Policy,
@@ -616,6 +626,9 @@ impl Inner {
 
     fn runnable(&self, t: usize) -> bool {
         if t == DRIVER {
+            if let Some(f) = &self.driver_futex {
+                return self.driver_futex_timeout || f.load(Ordering::SeqCst) != FUTEX_WAITING;
+            }
             return match self.driver_wait {
                 Some(id) => self.job_done(id),
                 None => true,
@@ -647,7 +660,7 @@ impl Inner {
                 v.push(t);
             }
         }
-        if self.driver_wait.is_some() && self.runnable(DRIVER) {
+        if (self.driver_wait.is_some() || self.driver_futex.is_some() || self.driver_yielded) && self.runnable(DRIVER) {
             v.push(DRIVER);
         }
         v
@@ -713,6 +726,12 @@ impl Sim {
                 active: 0,
                 current: DRIVER,
                 driver_wait: None,
+                driver_futex: None,
+                driver_futex_timeout: false,
+                driver_yielded: false,
+                driver_looks: 0,
+                threads_at_start: count_threads(),
+                workers_spawned: 0,
                 finished_jobs: Default::default(),
                 next_job_id: 1,
                 policy: Policy {
@@ -762,11 +781,17 @@ impl Sim {
     pub fn install(self: &Arc<Sim>) {
         CURRENT.with(|c| *c.borrow_mut() = Some((self.clone(), 0, DRIVER)));
         crate::clock::set_thread_sim_time(true);
+        // the main thread of the simulated program takes part in the guards too (only so that it
+        // cannot spin for ever on something a preempted worker has to finish, see `bb_callback`)
+        if std::env::var_os("SIM_NO_DRIVER_GUARDS").is_none() {
+            bbguard::set_thread_worker(true);
+        }
     }
 
     pub fn uninstall() {
         CURRENT.with(|c| *c.borrow_mut() = None);
         crate::clock::set_thread_sim_time(false);
+        bbguard::set_thread_worker(false);
     }
 
     fn lock(&self) -> G<'_> {
@@ -850,6 +875,7 @@ impl Sim {
                 .stack_size(32 << 20)
                 .spawn(move || worker_main(sim, pool_idx, idx, p2))
                 .expect("spawn sim worker");
+            g.workers_spawned += 1;
             g.pools[a].workers.push(Worker {
                 parker,
                 deque: VecDeque::new(),
@@ -979,6 +1005,18 @@ impl Sim {
             g.stats.clock_jumps += 1;
             g.stats.clock_ns_added += j;
         }
+        if me == DRIVER && kind == YieldKind::SpinYield {
+            // the simulated program's main thread spins politely on something a worker has to do
+            let others: Vec<usize> = g.runnable_set().into_iter().filter(|&t| t != DRIVER).collect();
+            if others.is_empty() {
+                return;
+            }
+            let i = g.choose(others.len() as u64) as usize;
+            g.driver_yielded = true;
+            self.handoff(g, me, kind, others[i]);
+            self.lock().driver_yielded = false;
+            return;
+        }
         let k = g.k();
         if g.policy.stalled && g.policy.step.saturating_sub(g.policy.stall_began) > 4000 {
             g.policy.stalled = false;
@@ -1043,15 +1081,24 @@ impl Sim {
                     }
                     continue;
                 }
-                let waiting_on_futex = g.pools[a].workers.iter().filter(|w| w.futex.is_some()).count();
+                let waiting_on_futex =
+                    g.pools[a].workers.iter().filter(|w| w.futex.is_some()).count() + g.driver_futex.is_some() as usize;
+                let known = g.threads_at_start + g.workers_spawned;
+                let limit_ms = g.cfg.watchdog_s.saturating_mul(1000);
                 drop(g);
                 if waiting_on_futex == 0 {
                     sim_fatal("no runnable thread although nobody waits on a futex");
                 }
-                // Every simulated thread waits on a futex. Only a thread outside the simulation
-                // could still wake one of them; give it a moment of real time.
-                if waited_ms >= 1500 {
+                // Every simulated thread waits on a futex. If the process has no thread the simulator
+                // does not know, nobody is left to wake them: a deadlock of the simulated program, for
+                // certain. Otherwise such a thread may still do it: wait (real time), and give up
+                // without a verdict when the watchdog's time is over.
+                if count_threads() <= known {
                     on_deadlock(waiting_on_futex);
+                }
+                if waited_ms >= limit_ms {
+                    self.blocked.store(true, Ordering::SeqCst);
+                    on_blocked();
                 }
                 thread::sleep(Duration::from_millis(2));
                 waited_ms += 2;
@@ -1169,8 +1216,10 @@ impl Sim {
                 if g.policy.run_streak < 1500 && kind != YieldKind::SpinYield {
                     return;
                 }
+                // (the driver counts when it is waiting for the token itself: it may be what the
+                // spinning thread is waiting for)
                 let mut others = g.runnable_set();
-                others.retain(|&t| t != me && t != DRIVER);
+                others.retain(|&t| t != me);
                 if others.is_empty() {
                     g.policy.run_streak = 0;
                     return;
@@ -1496,6 +1545,11 @@ fn on_blocked() -> ! {
     std::process::exit(EXIT_BLOCKED);
 }
 
+/// Number of threads of this process.
+fn count_threads() -> usize {
+    std::fs::read_dir("/proc/self/task").map(|d| d.count()).unwrap_or(usize::MAX / 2)
+}
+
 /// Exit code for an inconsistency of the simulator itself (a harness error, never a verdict).
 pub const EXIT_SIM_FATAL: i32 = 5;
 
@@ -1512,7 +1566,7 @@ pub const EXIT_DEADLOCK: i32 = 4;
 
 fn on_deadlock(waiting: usize) -> ! {
     println!(
-        "E1-DEADLOCK every runnable thread of the simulated program waits on a futex (lock, condvar, channel); {} waiters, no wake in 1.5 s of real time",
+        "E1-DEADLOCK every runnable thread of the simulated program waits on a futex (lock, condvar, channel): {} waiters, and the process has no other thread that could wake one",
         waiting
     );
     use std::io::Write;
@@ -1668,6 +1722,24 @@ fn bb_callback(kind: u32) {
     let cur = CURRENT.try_with(|c| c.borrow().as_ref().map(|(s, _, i)| (s.clone(), *i))).ok().flatten();
     let (sim, me) = match cur {
         Some((sim, me)) if me != DRIVER => (sim, me),
+        Some((sim, _)) => {
+            // The driver is not scheduled at guards. But it must not spin for ever on something a
+            // preempted worker has to finish (a channel slot being written, a flag): every 16th
+            // look it offers the token to the workers, like a `yield_now`.
+            bbguard::set_skip(1 << 12);
+            let n = {
+                let mut g = sim.lock();
+                if g.current != DRIVER || g.shutdown || g.pools[g.active].workers.is_empty() {
+                    return;
+                }
+                g.driver_looks += 1;
+                g.driver_looks
+            };
+            if n % 16 == 0 {
+                sim.yield_point(DRIVER, YieldKind::SpinYield);
+            }
+            return;
+        }
         _ => {
             bbguard::set_skip(1 << 16);
             return;
@@ -1716,12 +1788,20 @@ pub(crate) unsafe fn futex_wait_emulated(addr: usize, expected: u32, timeout_ns:
     let _i = InternalSection::new();
     let cur = CURRENT.try_with(|c| c.borrow().as_ref().map(|(s, _, i)| (s.clone(), *i))).ok().flatten();
     let (sim, me) = match cur {
-        Some((sim, me)) if me != DRIVER => (sim, me),
+        Some((sim, me)) => (sim, me),
         _ => return FutexWait::PassThrough,
     };
-    if sim.lock().current != me {
-        // not holding the token (cannot happen for code the scheduler released); be safe
-        return FutexWait::PassThrough;
+    {
+        let g = sim.lock();
+        if g.current != me || g.shutdown {
+            // not holding the token (cannot happen for code the scheduler released); be safe
+            return FutexWait::PassThrough;
+        }
+    }
+    if me == DRIVER {
+        // the simulated program's main thread blocks (say, on a channel fed by detached jobs):
+        // the workers must be there to run them
+        sim.ensure_workers();
     }
     let flag = Arc::new(AtomicU8::new(FUTEX_WAITING));
     {
@@ -1735,17 +1815,27 @@ pub(crate) unsafe fn futex_wait_emulated(addr: usize, expected: u32, timeout_ns:
     {
         let mut g = sim.lock();
         g.stats.futex_waits += 1;
-        let a = current_pool();
-        g.pools[a].workers[me].futex = Some(flag.clone());
-        g.pools[a].workers[me].futex_timeout = timeout_ns.is_some();
+        if me == DRIVER {
+            g.driver_futex = Some(flag.clone());
+            g.driver_futex_timeout = timeout_ns.is_some();
+        } else {
+            let a = current_pool();
+            g.pools[a].workers[me].futex = Some(flag.clone());
+            g.pools[a].workers[me].futex_timeout = timeout_ns.is_some();
+        }
     }
     flush_hooks_passed(&sim);
     sim.yield_point(me, YieldKind::Blocked);
     {
         let mut g = sim.lock();
-        let a = current_pool();
-        g.pools[a].workers[me].futex = None;
-        g.pools[a].workers[me].futex_timeout = false;
+        if me == DRIVER {
+            g.driver_futex = None;
+            g.driver_futex_timeout = false;
+        } else {
+            let a = current_pool();
+            g.pools[a].workers[me].futex = None;
+            g.pools[a].workers[me].futex_timeout = false;
+        }
     }
     {
         let mut r = FUTEX_REG.lock().unwrap_or_else(|e| e.into_inner());
@@ -1788,14 +1878,25 @@ pub(crate) fn futex_wake_emulated(addr: usize, n: usize) -> usize {
     k
 }
 
+/// Is the calling thread the driver (the simulated program's main thread) of an installed simulation?
+pub(crate) fn is_sim_driver() -> bool {
+    CURRENT.try_with(|c| matches!(c.try_borrow().ok().as_deref(), Some(Some((_, _, DRIVER))))).unwrap_or(false)
+}
+
 /// `sched_yield` on a worker of a simulation. False: do the real call.
 pub(crate) fn spin_yield_emulated() -> bool {
     let _i = InternalSection::new();
     let cur = CURRENT.try_with(|c| c.borrow().as_ref().map(|(s, _, i)| (s.clone(), *i))).ok().flatten();
     match cur {
-        Some((sim, me)) if me != DRIVER => {
-            if sim.lock().current != me {
-                return false;
+        Some((sim, me)) => {
+            {
+                let g = sim.lock();
+                if g.current != me || g.shutdown {
+                    return false;
+                }
+                if me == DRIVER && g.pools[g.active].workers.is_empty() {
+                    return false;
+                }
             }
             flush_hooks_passed(&sim);
             sim.yield_point(me, YieldKind::SpinYield);
